@@ -42,13 +42,15 @@ def make_case(rng, idx):
         files[f] = text
         facts[f] = fx
     kws = ["Ledger", "Widget"] if custom_kw else None
+    if not custom_kw and rng.random() < 0.3:
+        kws = rng.choice([[], ["Manager"], ["Helper", "Ledger"]])  # an explicit list - empty, one of the default words, a mix - replaces the default list
     return {"idx": idx, "M": M, "L": L, "over": over, "check_kw": check_kw, "keywords": kws, "files": files, "facts": facts,
             "carrier": rng.choice(["yaml", "json"]), "hyphen_lang": False}
 
 
 def config_of(case):
     sec = {"enabled": True, "max_methods": case["M"], "max_loc": case["L"], "check_keywords": case["check_kw"]}
-    if case["keywords"]:
+    if case["keywords"] is not None:
         sec["keywords"] = case["keywords"]
     for lang, o in case["over"].items():
         sec[LANGKEY[lang]] = dict(o)
@@ -96,7 +98,7 @@ def run(ctx):
             continue
         files = dict(case["files"], **v["cfg"])
         rep = {"argv": ["srp", "--format", "json", "."], "config": config_of(case)}
-        kws = case["keywords"] or classes.KEYWORDS
+        kws = case["keywords"] if case["keywords"] is not None else classes.KEYWORDS
         for f, fx in case["facts"].items():
             lang = f.rsplit(".", 1)[1]
             eff = dict({"max_methods": case["M"], "max_loc": case["L"]}, **case["over"].get(lang, {}))
